@@ -38,7 +38,17 @@ KUNITS = {
         H('constraint_matrix::verif_hooks::kani_encidx::enc_indices_matches_rfc', True, unwind_is_obligation=True, timeout='30m',
           functions=['src/constraint_matrix.rs enc_indices']),
     ],
+    'K-WIRE': [
+        H('base::verif_hooks::kani_wire::payload_id_value_roundtrip', True, functions=['src/base.rs PayloadId::new/serialize/deserialize/accessors']),
+        H('base::verif_hooks::kani_wire::payload_id_bytes_roundtrip', True),
+        H('base::verif_hooks::kani_wire::payload_id_refuses_25_bit_esi', True, refusal=True),
+        H('base::verif_hooks::kani_wire::oti_bytes_roundtrip', True, functions=['src/base.rs ObjectTransmissionInformation::serialize/deserialize/accessors']),
+        H('base::verif_hooks::kani_wire::oti_value_roundtrip', True),
+        H('base::verif_hooks::kani_wire::packet_roundtrip_bounded', False, bound='payload length <= 8 bytes', functions=['src/base.rs EncodingPacket::serialize/deserialize']),
+    ],
     'K-OTI': [
+        H('base::verif_hooks::kani_oti::oti_new_refuses_misaligned', True, refusal=True, functions=['src/base.rs ObjectTransmissionInformation::new']),
+        H('base::verif_hooks::kani_oti::oti_new_refuses_long_object', True, refusal=True),
         H('base::verif_hooks::kani_oti::oti_new_reports_arguments', True, functions=['src/base.rs ObjectTransmissionInformation::new + accessors']),
     ],
 }
@@ -62,6 +72,12 @@ PROPS = {
         assumptions=['pinned table transcription (/verif/spec/rfc_tables.rs) equals RFC 6330 sections 5.5/5.6 (RFC text not available offline)',
                      'RFC oracles /verif/spec/rfc.rs transcribed from RFC 6330 5.3.5.1-5.3.5.4', 'CBMC/cadical sound'],
         not_decided=[]),
+    'C13': dict(
+        level='proof', units=[('K', 'K-WIRE', None)],
+        explanation='fixed-size formats: loop-free Kani harnesses over all byte patterns / all values (complete); oracle = from_be_bytes of the RFC field positions; '
+                    'variable-length packet: bounded Kani stand-in (payload <= 8 bytes), listed under bounded and not counted',
+        assumptions=['oracle: u32/u16/u64::from_be_bytes at the RFC 6330 3.2/3.3 field offsets', 'CBMC/cadical sound'],
+        not_decided=['EncodingPacket (de)serialisation for payloads longer than 8 bytes (bounded stand-in only)']),
     'C10': dict(
         level='proof', units=[('K', 'K-GF', None)],
         explanation='all harnesses loop-free over full u8 domains (spec loop of 8 steps fully unwound with unwinding assertions): complete',
